@@ -6,9 +6,10 @@ package gnosis
 
 // ---- C06 / C05: signatures on released keys ---------------------------------------------------
 //
-// MAXMSG: a decoded gossip message has at most 2^20 elements in any list (A-pubsub-size: gossipsub
-// caps messages at 1 MiB).
-//@ const MAXMSG = 1048576
+// MAXMSG: every list of a decoded gossip message has fewer than 2^31 elements (A-pubsub-size; gossipsub caps
+// messages at 1 MiB, so the real bound is far lower). The bound is the weakest that works: the code compares
+// int32(len(SignerIndices)) with the threshold, and with 2^31 the postconditions on the signature count fail.
+//@ const MAXMSG = 2147483647
 //@ pred wfKeys(keys) := keys != nil && len(keys.Keys) <= MAXMSG && (forall i :: 0 <= i && i < len(keys.Keys) ==> keys.Keys[i] != nil)
 //@ pred wfExtraG(x) := x != nil && len(x.SignerIndices) <= MAXMSG && len(x.Signatures) <= MAXMSG
 //@ pred signersOK(x, n) := (forall i :: 0 <= i && i < len(x.SignerIndices) ==> x.SignerIndices[i] < n) && (forall i :: 1 <= i && i < len(x.SignerIndices) ==> x.SignerIndices[i - 1] < x.SignerIndices[i])
